@@ -128,7 +128,8 @@ def toc_lookup_rules(ctx, rule='R8'):
         ok = norm(rn[0].ast.value) in cmp_
     ctx.inst(rule, gi, 'by-id-compares-ident', ok, 'get_element_by_id returns the element whose .ident equals the argument')
     gid = toc.method('get_element_id')
-    sp = {norm(s.targets[0]): norm(s.value) for s in walk_own(gid.node) if isinstance(s, ast.Assign)}
+    sp = {norm(s.targets[0]) if not isinstance(s.targets[0], (ast.List, ast.Tuple)) else '[%s]' % ', '.join(norm(e) for e in s.targets[0].elts): norm(s.value)
+          for s in walk_own(gid.node) if isinstance(s, ast.Assign)}
     okid = sp.get('[group, name]') == "%s.split('.')" % gid.params[1] and sp.get('element') == 'self.get_element(group, name)' and \
         any(isinstance(s, ast.Return) and s.value is not None and norm(s.value) == 'element.ident' for s in walk_own(gid.node))
     ctx.inst(rule, gid, 'id-of-name', okid, 'get_element_id splits group.name, looks the element up and returns its ident')
@@ -386,12 +387,35 @@ def check(ctx):
     slice_rule(ctx)
 
     # ---- R4: index split --------------------------------------------------------------------
-    for c in [x for x in walk_own(rq.node) if isinstance(x, ast.Tuple) and len(x.elts) == 3 and norm(x.elts[0]) == 'CMD_TOC_ITEM_V2']:
-        lo = B_.evaluate(c.elts[1], Scope.of(rq), {'index': 'index'})
-        hi = B_.evaluate(c.elts[2], Scope.of(rq), {'index': 'index'})
-        ok = B_.is_input_field(lo, 0, 8, 'index', 0) and all(b == 0 for b in lo[8:]) and \
-            B_.is_input_field(hi, 0, 8, 'index', 8) and all(b == 0 for b in hi[8:])
-        ctx.inst('R4', rq, 'index-split-little-endian', ok, 'request bytes must be index[7:0], index[15:8]; low=%s high=%s' % (B_.describe(lo, 8), B_.describe(hi, 8)))
+    grq = cfg_of(rq)
+    uses = []                                  # (role, node, expression): the request bytes as payload and as expected reply
+    for n in grq.nodes:
+        if n.kind == 'stmt' and isinstance(n.ast, ast.Assign) and norm(n.ast.targets[0]).endswith('.data'):
+            uses.append(('data', n, n.ast.value))
+        for c in (walk_own(n.ast) if n.kind == 'stmt' else []):
+            if method_call(c, 'send_packet'):
+                uses.extend(('expected_reply', n, k.value) for k in c.keywords if k.arg == 'expected_reply')
+    for role, n, e in uses:
+        # the tuple may be bound to a local first (one per protocol branch): look through it, per reaching definition
+        cands = []
+        if isinstance(e, ast.Name):
+            for d in grq.reaching_defs(n, e.id):
+                dv = grq.def_value(d, e.id)
+                if dv is not None and fact_key('self._useV2', False) not in grq.fact_keys_at(d):
+                    cands.append(grq.expand_locals(d, dv))
+        elif fact_key('self._useV2', False) not in grq.fact_keys_at(n):
+            cands.append(grq.expand_locals(n, e))
+        for c in cands:
+            if not (isinstance(c, ast.Tuple) and len(c.elts) == 3 and norm(c.elts[0]) == 'CMD_TOC_ITEM_V2'):
+                if isinstance(c, ast.Tuple) and len(c.elts) == 2:
+                    continue                   # the V1 request, selected by a conditional expression
+                ctx.inst('R4', rq, 'index-split-little-endian:' + role, False, 'the V2 element request is (CMD_TOC_ITEM_V2, index low, index high); found %s' % norm(c))
+                continue
+            lo = B_.evaluate(c.elts[1], Scope.of(rq), {'index': 'index'})
+            hi = B_.evaluate(c.elts[2], Scope.of(rq), {'index': 'index'})
+            ok = B_.is_input_field(lo, 0, 8, 'index', 0) and all(b == 0 for b in lo[8:]) and \
+                B_.is_input_field(hi, 0, 8, 'index', 8) and all(b == 0 for b in hi[8:])
+            ctx.inst('R4', rq, 'index-split-little-endian:' + role, ok, 'request bytes must be index[7:0], index[15:8]; low=%s high=%s' % (B_.describe(lo, 8), B_.describe(hi, 8)))
 
     # ---- R5: version switch -----------------------------------------------------------------------
     sites = []
